@@ -93,7 +93,7 @@ func init() {
 		Assumes:   []string{"import tables of valid Go files: paths pairwise distinct; bound names pairwise distinct except _ and ."}})
 	reg(&HarnessSpec{Prop: "C13", Name: "C13ImportTable3", Tier: "thorough", MapOrder: true,
 		CrossPath: []string{"LookupName", "LookupPath", "LookupPath.q"},
-		What:      "C13ImportTable with 3 imports", Bounds: "3 imports", Assumes: []string{"as C13ImportTable"}})
+		What:      "C13ImportTable with 3 imports", Bounds: "3 imports; 2 directory shapes for the first two paths, 1 for the third", Assumes: []string{"as C13ImportTable"}})
 
 	// ---------------------------------------------------------------- mode T smoke
 	reg(&HarnessSpec{Prop: "T0", Name: "T0Pipeline", What: "validation of the native bridge: full front half on the basic skeleton for every slot choice", Bounds: "skeleton basic"})
